@@ -319,6 +319,7 @@ type Ctx struct {
 	Items   []Item
 	n       int
 	declared map[string]bool
+	infos    map[int]*itemInfo
 	// threshold above which compound terms are named
 	NameLimit int
 }
@@ -403,6 +404,24 @@ func (c *Ctx) Assume(t Term) {
 	if t.S == "true" {
 		return
 	}
+	// conjunctions are asserted conjunct by conjunct (so that the relevance filter can drop the
+	// quantified ones separately); (=> g (and ..)) likewise
+	if strings.Contains(t.S, "(forall") && (strings.HasPrefix(t.S, "(and ") || strings.HasPrefix(t.S, "(=> ")) {
+		tr := parseSx(t.S)
+		if tr != nil && len(tr.kids) >= 3 && tr.kids[0].isAtom("and") {
+			for _, k := range tr.kids[1:] {
+				c.Assume(Term{k.String(), SBool})
+			}
+			return
+		}
+		if tr != nil && len(tr.kids) == 3 && tr.kids[0].isAtom("=>") && len(tr.kids[2].kids) >= 3 && tr.kids[2].kids[0].isAtom("and") {
+			g := tr.kids[1].String()
+			for _, k := range tr.kids[2].kids[1:] {
+				c.Assume(Term{"(=> " + g + " " + k.String() + ")", SBool})
+			}
+			return
+		}
+	}
 	c.add(fmt.Sprintf("(assert %s)", t.S))
 }
 
@@ -414,7 +433,11 @@ func (c *Ctx) Script(mark int, goal Term, comment string) string {
 	sb.WriteString("; " + strings.ReplaceAll(comment, "\n", " ") + "\n")
 	sb.WriteString("(set-option :produce-models true)\n(set-logic ALL)\n")
 	var body strings.Builder
-	for _, it := range c.Items[:mark] {
+	keep := c.relevant(mark, goal.S)
+	for i, it := range c.Items[:mark] {
+		if !keep[i] {
+			continue
+		}
 		body.WriteString(it.Text)
 		body.WriteByte('\n')
 	}
@@ -605,4 +628,129 @@ func wrapIntMod(z Term, signed bool) Term {
 		return app(SInt, "-", app(SInt, "mod", app(SInt, "+", z, h), m), h)
 	}
 	return app(SInt, "mod", z, m)
+}
+
+var symRe = regexp.MustCompile(`\|[^|]+\||[A-Za-z_][A-Za-z0-9_.!$]*`)
+var heapFamRe = regexp.MustCompile(`^\|?(?:H0|H|Hl|Hh|He[0-9]+|Hm[0-9]+):([^|!]+)`)
+
+type itemInfo struct {
+	defName string   // for define-fun
+	syms    []string // symbols mentioned
+	quant   bool
+	isAssert bool
+}
+
+func (c *Ctx) itemInfo(i int) *itemInfo {
+	if c.infos == nil {
+		c.infos = map[int]*itemInfo{}
+	}
+	if ii, ok := c.infos[i]; ok {
+		return ii
+	}
+	t := c.Items[i].Text
+	ii := &itemInfo{quant: strings.Contains(t, "(forall") || strings.Contains(t, "(exists"), isAssert: strings.HasPrefix(t, "(assert")}
+	toks := symRe.FindAllString(t, -1)
+	if strings.HasPrefix(t, "(define-fun ") {
+		rest := t[len("(define-fun "):]
+		if m := symRe.FindString(rest); m != "" {
+			ii.defName = m
+		}
+	}
+	seen := map[string]bool{}
+	for _, k := range toks {
+		if !seen[k] {
+			seen[k] = true
+			ii.syms = append(ii.syms, k)
+		}
+	}
+	c.infos[i] = ii
+	return ii
+}
+
+// relevant decides which items go into the script of a goal. Dropping assumptions is always
+// sound. Only quantified assertions are candidates for dropping: one is kept iff it talks
+// about a heap family that the goal (transitively through definitions and the kept
+// quantified assertions) talks about.
+func (c *Ctx) relevant(mark int, goal string) []bool {
+	keep := make([]bool, mark)
+	defIdx := map[string]int{}
+	for i := 0; i < mark; i++ {
+		ii := c.itemInfo(i)
+		if ii.defName != "" {
+			defIdx[ii.defName] = i
+		}
+		keep[i] = true
+	}
+	// families reachable from a symbol list through definitions
+	famCache := map[int]map[string]bool{}
+	var famOfDef func(i int, depth int) map[string]bool
+	famOfSyms := func(syms []string, depth int) map[string]bool {
+		out := map[string]bool{}
+		for _, s := range syms {
+			if m := heapFamRe.FindStringSubmatch(s); m != nil {
+				out[m[1]] = true
+			}
+			if di, ok := defIdx[s]; ok && depth < 50 {
+				for f := range famOfDef(di, depth+1) {
+					out[f] = true
+				}
+			}
+		}
+		return out
+	}
+	famOfDef = func(i int, depth int) map[string]bool {
+		if f, ok := famCache[i]; ok {
+			return f
+		}
+		famCache[i] = map[string]bool{}
+		var syms []string
+		for _, s := range c.itemInfo(i).syms {
+			if s != c.itemInfo(i).defName {
+				syms = append(syms, s)
+			}
+		}
+		f := famOfSyms(syms, depth)
+		famCache[i] = f
+		return f
+	}
+	fams := famOfSyms(symRe.FindAllString(goal, -1), 0)
+	type q struct {
+		idx  int
+		fams map[string]bool
+	}
+	var qs []q
+	for i := 0; i < mark; i++ {
+		ii := c.itemInfo(i)
+		if ii.isAssert && ii.quant {
+			f := famOfSyms(ii.syms, 0)
+			if len(f) == 0 {
+				continue // no heap involved (e.g. bridge axioms): keep
+			}
+			qs = append(qs, q{i, f})
+			keep[i] = false
+		}
+	}
+	for changed := true; changed; {
+		changed = false
+		for _, x := range qs {
+			if keep[x.idx] {
+				continue
+			}
+			hit := false
+			for f := range x.fams {
+				if fams[f] {
+					hit = true
+					break
+				}
+			}
+			if hit {
+				keep[x.idx] = true
+				changed = true
+				for f := range x.fams {
+					fams[f] = true
+				}
+			}
+		}
+	}
+	return keep
 }
